@@ -340,9 +340,25 @@ Proof.
   rewrite !of_N_lor, !of_N_shiftl. reflexivity.
 Qed.
 
+(* monad laws, pointwise (no functional extensionality): used to bring a translated term in which a rewrite of the source
+   has extracted a helper method (unfolded through the hint database tr_helpers) back to the shape bind-by-bind *)
+Lemma bind_assoc_pt {A B C} (m : M A) (g : A -> M B) (f : B -> M C) ds :
+  PySem.bind (PySem.bind m g) f ds = PySem.bind m (fun x => PySem.bind (g x) f) ds.
+Proof. unfold PySem.bind. destruct (m ds); reflexivity. Qed.
+Lemma bind_ret_pt {A B} (a : A) (f : A -> M B) ds : PySem.bind (PySem.ret a) f ds = f a ds.
+Proof. reflexivity. Qed.
+Lemma bind_if_pt {A B} (c : bool) (m1 m2 : M A) (f : A -> M B) ds :
+  PySem.bind (if c then m1 else m2) f ds = (if c then PySem.bind m1 f else PySem.bind m2 f) ds.
+Proof. destruct c; reflexivity. Qed.
+Lemma if_app_pt {A} (c : bool) (m1 m2 : M A) ds : (if c then m1 else m2) ds = if c then m1 ds else m2 ds.
+Proof. destruct c; reflexivity. Qed.
+Ltac tr_normalize :=
+  autounfold with tr_helpers;
+  repeat first [ rewrite bind_if_pt | rewrite bind_assoc_pt | rewrite bind_ret_pt ].
+
 Ltac sim_leaf := apply sim_ret; rewrite <- compose_bytes_z; repeat f_equal; lia.
 Ltac sim_step V :=
-  cbv zeta;
+  cbv zeta; tr_normalize;
   first
     [ apply sim_bind;
       [ first [ apply tr_rand_nonzero_byte_sim; exact V
